@@ -1360,6 +1360,11 @@ func appended2(res, dst []byte, a, b byte) bool {
 //@   invariant 0 [C12,C02] level: i.addNext == stepAddNext(i.t, i.cur, i.off)
 //@   safe [C05]
 
+// sameBytes: equal length and contents
+func sameBytes(a, b []byte) bool {
+	return len(a) == len(b) && forall(0, len(b), func(j int) bool { return a[j] == b[j] })
+}
+
 func appended1(res, dst []byte, a byte) bool {
 	return len(res) == len(dst)+1 && res[len(dst)] == a && forall(0, len(dst), func(j int) bool { return res[j] == dst[j] })
 }
@@ -1514,7 +1519,7 @@ func ifaceMeasureIter(i *Iter) int {
 //@   requires i.tape.Tape[i.off] == uint64(TagObjectEnd)<<56|uint64(i.off-1) && tagOf(i.tape.Tape[i.off+1]) == TagRoot && payOf(i.tape.Tape[i.off+1]) == uint64(i.off-2)
 //@   ensures marshals: result1 == nil && appended2(result0, old(dst), '{', '}')
 //@   invariant 0 iterOK(i) && len(stack) >= 1 && stack[0] == 0
-//@   invariant 0 phase: (i.off == old(i.off) && i.t == TagObjectStart && i.addNext == 0 && len(stack) == 1 && len(dst) == len(old(dst)) && sameSlice(dst, old(dst))) || (i.off == old(i.off)+1 && i.t == TagObjectEnd && i.addNext == 0 && len(stack) == 2 && stack[1] == 2 && appended1(dst, old(dst), '{')) || (i.off == old(i.off)+2 && i.t == TagRoot && i.cur == uint64(old(i.off))-2 && i.addNext == 0 && len(stack) == 1 && appended2(dst, old(dst), '{', '}'))
+//@   invariant 0 phase: (i.off == old(i.off) && i.t == TagObjectStart && i.addNext == 0 && len(stack) == 1 && sameBytes(dst, old(dst))) || (i.off == old(i.off)+1 && i.t == TagObjectEnd && i.addNext == 0 && len(stack) == 2 && stack[1] == 2 && appended1(dst, old(dst), '{')) || (i.off == old(i.off)+2 && i.t == TagRoot && i.cur == uint64(old(i.off))-2 && i.addNext == 0 && len(stack) == 1 && appended2(dst, old(dst), '{', '}'))
 //@   decreases 0 marshalMeasure(i)
 
 // An iterator positioned ON a root by Advance() (the whole root queued for skipping) marshals the root's content.
@@ -1526,6 +1531,6 @@ func ifaceMeasureIter(i *Iter) int {
 //@   requires i.tape.Tape[i.off] == uint64(TagObjectStart)<<56|(uint64(i.off)+2) && i.tape.Tape[i.off+1] == uint64(TagObjectEnd)<<56|uint64(i.off) && i.tape.Tape[i.off+2] == uint64(TagRoot)<<56|uint64(i.off-1)
 //@   ensures marshals: result1 == nil && appended2(result0, old(dst), '{', '}')
 //@   invariant 0 iterOK(i) && len(stack) >= 1 && stack[0] == 0
-//@   invariant 0 phase: (i.off == old(i.off) && i.t == TagRoot && i.cur == uint64(old(i.off))+3 && len(stack) == 1 && len(dst) == len(old(dst)) && sameSlice(dst, old(dst))) || (i.off == old(i.off)+1 && i.t == TagObjectStart && i.addNext == 0 && len(stack) == 2 && stack[1] == 3 && len(dst) == len(old(dst)) && sameSlice(dst, old(dst))) || (i.off == old(i.off)+2 && i.t == TagObjectEnd && i.addNext == 0 && len(stack) == 3 && stack[1] == 3 && stack[2] == 2 && appended1(dst, old(dst), '{')) || (i.off == old(i.off)+3 && i.t == TagRoot && i.cur == uint64(old(i.off))-1 && i.addNext == 0 && len(stack) == 2 && stack[1] == 3 && appended2(dst, old(dst), '{', '}'))
+//@   invariant 0 phase: (i.off == old(i.off) && i.t == TagRoot && i.cur == uint64(old(i.off))+3 && len(stack) == 1 && sameBytes(dst, old(dst))) || (i.off == old(i.off)+1 && i.t == TagObjectStart && i.addNext == 0 && len(stack) == 2 && stack[1] == 3 && sameBytes(dst, old(dst))) || (i.off == old(i.off)+2 && i.t == TagObjectEnd && i.addNext == 0 && len(stack) == 3 && stack[1] == 3 && stack[2] == 2 && appended1(dst, old(dst), '{')) || (i.off == old(i.off)+3 && i.t == TagRoot && i.cur == uint64(old(i.off))-1 && i.addNext == 0 && len(stack) == 2 && stack[1] == 3 && appended2(dst, old(dst), '{', '}'))
 //@   decreases 0 marshalMeasure(i)
 
